@@ -161,3 +161,53 @@ def _native_history(spec, model):
         if r['name'] == spec['name']:
             return {'confirmed': not r['ok'], 'observed': r['detail'], 'expected': 'route == direct conversion; back-conversion restores the original'}
     return {'confirmed': False, 'error': 'case not found'}
+
+
+def combined_convert_cases():
+    """PointIsotherm.convert(...) with several targets at once, one of which is refused: afterwards the isotherm is what the steps
+    completed before the refusal made it -- its labels describe its numbers (the data read in a fixed representation equal the
+    original), and the same call repeated with a possible target ends where the direct conversion ends"""
+    import numpy
+    import pygaps
+    pygaps.logger.disabled = True
+    meta = dict(material={'name': 'pgv_c02_nomat'}, adsorbate='nitrogen', temperature=77.355, pressure_mode='absolute', pressure_unit='bar',
+                loading_basis='molar', loading_unit='mmol', material_basis='mass', material_unit='g', temperature_unit='K')
+    mk = lambda: pygaps.PointIsotherm(pressure=[0.1, 0.2, 0.4, 0.8, 0.5, 0.25], loading=[0.5, 1.25, 2.0, 2.6, 2.2, 1.6], **meta)
+    canon = lambda i: (numpy.asarray(i.pressure(pressure_mode='absolute', pressure_unit='Pa'), dtype=float),
+                       numpy.asarray(i.loading(loading_basis='molar', loading_unit='mol', material_basis='mass', material_unit='kg'), dtype=float))
+    cases = {
+        'pressure_ok_then_unknown_loading_unit': (dict(pressure_unit='Pa', loading_unit='no_such_unit'), dict(pressure_unit='Pa', loading_unit='mol')),
+        'pressure_ok_then_loading_basis_without_unit': (dict(pressure_unit='kPa', loading_basis='mass'), dict(pressure_unit='kPa', loading_basis='mass', loading_unit='g')),
+        'pressure_ok_then_material_volume_without_density': (dict(pressure_mode='absolute', pressure_unit='Pa', material_basis='volume', material_unit='cm3'),
+                                                             dict(pressure_mode='absolute', pressure_unit='Pa', material_unit='kg')),
+        'material_ok_then_unknown_loading_basis': (dict(material_unit='kg', loading_basis='no_such_basis', loading_unit='g'), dict(material_unit='kg', loading_basis='mass', loading_unit='g')),
+    }
+    for name, (bad, good) in cases.items():
+        probs = []
+        try:
+            iso = mk()
+            p0, l0 = canon(iso)
+            try:
+                iso.convert(**bad)
+                probs.append('the impossible target was not refused')
+            except Exception:
+                pass
+            p1, l1 = canon(iso)
+            if not (numpy.allclose(p1, p0, rtol=1e-9) and numpy.allclose(l1, l0, rtol=1e-9)):
+                probs.append(f"after the refusal the labels {iso.units} no longer describe the numbers: pressure in Pa {p1[:3]} (was {p0[:3]}), loading in mol/kg {l1[:3]} (was {l0[:3]})")
+            iso.convert(**good)
+            direct = mk()
+            direct.convert(**good)
+            if not (numpy.allclose(iso.pressure(), direct.pressure(), rtol=1e-9) and numpy.allclose(iso.loading(), direct.loading(), rtol=1e-9) and iso.units == direct.units):
+                probs.append(f"repeating the call with a possible target gives {list(iso.pressure())[:2]} {iso.units}, the direct conversion {list(direct.pressure())[:2]} {direct.units}")
+        except Exception as exc:
+            probs.append(f"{type(exc).__name__}: {exc}"[:160])
+        yield {'name': f"combined_convert|{name}", 'ok': not probs, 'detail': '; '.join(probs[:2])}
+
+
+@replayer('c02.combined')
+def _combined(spec, model):
+    for r in combined_convert_cases():
+        if r['name'] == spec['name']:
+            return {'confirmed': not r['ok'], 'observed': r['detail'], 'expected': 'labels describe the numbers after a refused combined conversion'}
+    return {'confirmed': False, 'error': 'case not found'}
